@@ -1,6 +1,6 @@
 (* C14 — a failed or nested send leaves no trace in later or enclosing messages (model: Tls.v). *)
 From Coq Require Import List Arith Bool.
-From IPC Require Import Codec Tls TlsProofs.
+From IPC Require Import Codec Tls TlsProofs TlsRecv TlsRecvProofs.
 Import ListNotations.
 
 (* the per-thread tables are exactly as before after ANY send: successful, failed at any point, nested to any depth *)
@@ -36,7 +36,7 @@ Print Assumptions C14_independent.
 
 (* the fuel is not a loophole *)
 Theorem C14_fuel : forall (body : list sact) (t : tls) (fuel : nat),
-  (size body <= fuel)%nat -> ipc_send fuel body t = ipc_send (size body) body t.
+  (Tls.size body <= fuel)%nat -> ipc_send fuel body t = ipc_send (Tls.size body) body t.
 Proof. exact ipc_send_fuel_enough. Qed.
 Print Assumptions C14_fuel.
 
@@ -46,3 +46,45 @@ Example C14_ex :
      {| msgs := [ {| s_chans := [AChan false 7]; s_regions := [] |}; {| s_chans := [AChan true 1; AChan true 2]; s_regions := [5] |} ];
         released := [AChan true 9] |}).
 Proof. vm_compute. reflexivity. Qed.
+
+
+(* ---- receive side (model: TlsRecv.v — OpaqueIpcMessage::to swaps the message's tables in, decodes, swaps back) ---- *)
+
+(* the per-thread receive tables are exactly as before after ANY receive-and-decode: successful, failed, nested *)
+Theorem C14_recv_frame : forall (fuel : nat) (msg : tabs) (body : list dact) (tl : tabs) (res : dres) (tl' : tabs) (o : out),
+  to_ fuel msg body tl = (res, tl', o) -> tl' = tl.
+Proof. exact to_frame. Qed.
+Print Assumptions C14_recv_frame.
+
+(* ... and what the decode yields does not depend on what those tables held (an enclosing decode in progress, leftovers) *)
+Theorem C14_recv_independent : forall (fuel : nat) (msg : tabs) (body : list dact) (tl1 tl2 : tabs),
+  fst (fst (to_ fuel msg body tl1)) = fst (fst (to_ fuel msg body tl2)) /\
+  snd (to_ fuel msg body tl1) = snd (to_ fuel msg body tl2).
+Proof. exact to_tl_irrelevant. Qed.
+Print Assumptions C14_recv_independent.
+
+(* a decoded value gets exactly the attachments its own level asks for, from its own message's tables *)
+Theorem C14_recv_own : forall (fuel : nat) (msg : tabs) (body : list dact) (tl tl' : tabs) (o : out),
+  to_ fuel msg body tl = (DecOk, tl', o) -> own fuel body msg = Some (got_c o, got_r o).
+Proof. exact to_own. Qed.
+Print Assumptions C14_recv_own.
+
+(* a receive issued from inside a deserialisation contributes the same entries whatever the enclosing tables hold *)
+Theorem C14_recv_nested : forall (f : nat) (msg : tabs) (b : list dact) (prop : bool) (r : list dact) (tl1 tl2 : tabs),
+  exists rest1 rest2 : list (list nat * list nat),
+    inner (snd (des (S f) (DNest msg b prop :: r) tl1)) = nested_entries f b msg ++ rest1 /\
+    inner (snd (des (S f) (DNest msg b prop :: r) tl2)) = nested_entries f b msg ++ rest2.
+Proof. exact nested_independent2. Qed.
+Print Assumptions C14_recv_nested.
+
+(* whatever is handed out comes from the message being decoded, and nothing is handed out twice *)
+Theorem C14_recv_conserves : forall (fuel : nat) (msg : tabs) (body : list dact) (tl : tabs) (res : dres) (tl' : tabs) (o : out),
+  to_ fuel msg body tl = (res, tl', o) ->
+  (forall x, In x (got_c o) -> In (Some x) (tc msg)) /\ (forall x, In x (got_r o) -> In (Some x) (tr msg)).
+Proof. exact to_conserves. Qed.
+Print Assumptions C14_recv_conserves.
+
+Theorem C14_recv_fuel : forall (msg : tabs) (body : list dact) (tl : tabs) (fuel : nat),
+  TlsRecv.size body <= fuel -> to_ fuel msg body tl = to_ (TlsRecv.size body) msg body tl.
+Proof. exact to_fuel_enough. Qed.
+Print Assumptions C14_recv_fuel.
